@@ -127,14 +127,28 @@ def run(prop, tier, seed):
 
     # ------------------------------------------------------------------ builds
     with core.Lock():
-        for m in core.regenerate():
-            broken.append("translator: " + m)
+        regen_msgs = core.regenerate()
         scan = core.static_scan()
         obligations.append(("static-scan:no-axiom/admit/unsafe-flags", not scan, "; ".join(scan)))
         if scan:
             broken.append("forbidden construct in development: " + "; ".join(scan))
         okc, clog, failing = core.build_coq()
-        obligations.append(("coq-build:make(full .vo)", okc, "" if okc else (failing or "") + clog[-1500:]))
+        if not okc:
+            # a file that does not build breaks exactly the properties whose theorems depend on it
+            import re as _re
+            bad = set(_re.findall(r'File "\./([^"]+\.v)"', clog)) | \
+                {m[:-1] for m in _re.findall(r"\*\*\* \[Makefile[^:]*:\d+: (\S+\.vo)\] Error", clog)}
+            deps = core.coq_deps(pid)
+            if bad and deps is not None and not (bad & deps) and os.path.exists(
+                    os.path.join(core.COQ, "theories", "Properties", pid + ".vo")):
+                ctx.notes.append("Coq build: %s do(es) not build; Properties/%s.v does not depend on it" % (sorted(bad), pid))
+                okc = True
+        depsp = core.coq_deps(pid)
+        if regen_msgs and (depsp is None or any(d.startswith("theories/Gen/") for d in depsp)):
+            for m in regen_msgs:
+                broken.append("translator: " + m)
+        obligations.append(("coq-build:make(full .vo) of Properties/%s.v and everything it depends on" % pid, okc,
+                            "" if okc else (failing or "") + clog[-1500:]))
         if not okc:
             broken.append("Coq build fails at %s" % (failing or "?"))
         axioms = {}
